@@ -229,6 +229,19 @@ class Fn:
 class _PlainAssign(ast.NodeTransformer):
     """`x: T = v` is read as `x = v` (same binding, same effect; `x: T` alone declares nothing at run time and is kept).
     Adding or removing a variable annotation is a behaviour-preserving edit: no rule may decide differently because of it."""
+    def generic_visit(self, n: ast.AST):
+        """statements without effect on any property (stray constants, docstrings, calls on a logger / print whose arguments
+        call nothing) are not part of the program the rules read: adding a log line changes no verdict"""
+        super().generic_visit(n)
+        from .astutil import is_noise
+        for fld in ("body", "orelse", "finalbody"):
+            b = getattr(n, fld, None)
+            if isinstance(b, list) and b and isinstance(b[0], ast.stmt):
+                kept = [st for st in b if isinstance(st, ast.Pass) or not is_noise(st)]
+                if kept and len(kept) != len(b):
+                    setattr(n, fld, kept)
+        return n
+
     def visit_AnnAssign(self, n: ast.AnnAssign):
         self.generic_visit(n)
         if n.value is None:
